@@ -448,6 +448,24 @@ def run(ctx):
         history(ctx, i, jobs)
     for i in range(ctx.n(15, 60)):
         inconsistent_ueb(ctx, i, jobs)
+    evaluate(ctx, jobs)
+
+
+def replay(ctx, record):
+    """Re-run the single recorded history (its random choices derive from (seed, property, index))."""
+    case = record.get("case") or {}
+    if "i" not in case:
+        return {"note": "record names no case index"}
+    jobs = []
+    if "ueb_edit" in case:
+        inconsistent_ueb(ctx, case["i"], jobs)
+    else:
+        history(ctx, case["i"], jobs)
+    evaluate(ctx, jobs)
+    return {"i": case["i"], "model_terms": sum(len(t) for _p, t, _i in jobs)}
+
+
+def evaluate(ctx, jobs):
     # evaluate the model: group the per-file jobs so that a handful of coqc processes run concurrently
     groups = []
     for j in range(0, len(jobs), 10):
